@@ -350,6 +350,48 @@ def apply_bin(op, x, y):
     raise ValueError(op)
 
 
+def _outcome(ctx: Ctx, f):
+    try:
+        raw = f()
+        return canon_out(ctx, raw), raw
+    except Exception as exc:  # noqa
+        return {"raise": type(exc).__name__, "msg": str(exc)[:120]}, None
+
+
+def run_operator(ctx: Ctx, spec, ops, opsj):
+    """x op y / op x on operand OBJECTS that are kept and used again: besides the outcome, check that the
+    operation left its operands (and copies of them made earlier by scaling with a number, which may share
+    state with them) as they were, and that the same expression on the same objects gives the same outcome a
+    second time.  A difference is reported under the keys "operand_changed" / "second_differs"."""
+    k = spec["k"]
+    if k == "bin":
+        def f():
+            return apply_bin(spec["op"], ops[0], ops[1])
+    else:
+        def f():
+            return {"neg": lambda q: -q, "abs": abs, "pos": lambda q: +q}[spec["op"]](ops[0])
+    quantities = [o for o in ops if type(o) in ctx.by_type or type(o) is ctx.U.SI]
+    aliases = []
+    for o in quantities:
+        try:
+            aliases.append(o * 2.0)
+        except Exception:  # noqa
+            pass
+    alias_before = [canon_value(ctx, a) for a in aliases]
+    out, raw = _outcome(ctx, f)
+    after = [canon_value(ctx, o) for o in ops]
+    alias_after = [canon_value(ctx, a) for a in aliases]
+    if after != opsj:
+        out["operand_changed"] = {"before": opsj, "after": after}
+    elif alias_after != alias_before:
+        out["operand_changed"] = {"copy_made_by_scaling_before": alias_before, "after": alias_after}
+    if quantities:
+        out2, _ = _outcome(ctx, f)
+        if {a: b for a, b in out2.items() if a != "msg"} != {a: b for a, b in out.items() if a not in ("msg", "operand_changed")}:
+            out["second_differs"] = out2
+    return out, opsj, raw
+
+
 def run_call(ctx: Ctx, spec):
     """Execute one call spec on the real classes.
     Returns (observed JSON, operands JSON list, raw result or None)."""
@@ -361,13 +403,11 @@ def run_call(ctx: Ctx, spec):
         return {"setup_failed": f"{type(exc).__name__}: {exc}"}, [], None
     opsj = [canon_value(ctx, o) for o in ops]
     raw = None
+    if k in ("bin", "un"):
+        return run_operator(ctx, spec, ops, opsj)
     try:
-        if k == "bin":
-            raw = apply_bin(spec["op"], ops[0], ops[1])
-            out = canon_out(ctx, raw)
-        elif k == "un":
-            raw = {"neg": lambda q: -q, "abs": abs, "pos": lambda q: +q}[spec["op"]](ops[0])
-            out = canon_out(ctx, raw)
+        if False:
+            pass
         elif k == "mk":
             v = build_value(ctx, spec["v"])
             cls = getattr(U, spec["cls"])
